@@ -135,6 +135,10 @@ def build(kind):
             spb.add_tstiff2d(ys=spb.b / 2., bf=0.05, bb=0.1, fstack=[0, 90, 90, 0], fplyt=spb.plyt,
                              flaminaprop=spb.laminaprop, bstack=[0, 90], bplyt=spb.plyt,
                              blaminaprop=spb.laminaprop, mb=4, nb=3, mf=4, nf=3, mu=spb.mu)
+        elif kind == "BayBeta":              # aerodynamic pressure parameter given directly instead of Mach
+            spb.Mach = None
+            spb.beta = 1.5e5
+            spb.gamma = 0.
         elif kind != "BayPlain":
             raise KeyError(kind)
         n = 3 * spb.m * spb.n
